@@ -137,6 +137,38 @@ func GenCase(t *rapid.T, mode string) Case {
 			// the lease runs out while a request is waiting for the next physical tick
 			c.Ops = append(c.Ops, Op{K: "nearexpire", M: m, D: vkit.PickU(t, []int64{0, 1, 30, 49, 120}, "before")},
 				Op{K: "gen", M: m, Count: 1<<18 - 2}, Op{K: "gen", M: m, Count: vkit.PickU(t, []uint32{1, 10, 1 << 17}, "c2")}, Op{K: "gen", M: m, Count: 1})
+		case k < 81 && mode != "enum":
+			// a window save (update tick) of m is sent and still under way while m steps down (or
+			// crashes and restarts), another member serves a whole term above it, and m is elected again; the delayed
+			// request reaches etcd at a generated point: at once, during the other term, between the terms, or in
+			// m's next term while its initialisation waits
+			other := mem()
+			at := vkit.Uni(t, 5, "arrive")
+			rel := func(i int) {
+				if at == i {
+					c.Ops = append(c.Ops, Op{K: "release", M: m})
+				}
+			}
+			c.Ops = append(c.Ops, Op{K: "resign", M: other}, Op{K: "campaign", M: m}, Op{K: "gen", M: m, Count: 1},
+				Op{K: "clockall", D: vkit.PickU(t, []int64{c.Cfg.SaveMs - 1, c.Cfg.SaveMs + 1, 50}, "tick5")},
+				Op{K: "hold", M: m})
+			rel(0)
+			if vkit.Uni(t, 3, "hcrash") == 0 {
+				c.Ops = append(c.Ops, Op{K: "crash", M: m}, Op{K: "restart", M: m})
+			} else {
+				c.Ops = append(c.Ops, Op{K: "resign", M: m})
+			}
+			rel(1)
+			c.Ops = append(c.Ops, Op{K: "campaign", M: other},
+				Op{K: "settso", M: other, Rel: vkit.PickU(t, []string{"+1h", "+save", "edge+1", "gap-1", "+1ms"}, "orel")},
+				Op{K: "gen", M: other, Count: vkit.PickU(t, counts, "count")})
+			rel(2)
+			c.Ops = append(c.Ops, Op{K: "clockall", D: vkit.PickU(t, []int64{0, 1, 50}, "tick6")}, Op{K: "update", M: other}, Op{K: "gen", M: other, Count: 1},
+				Op{K: "resign", M: other})
+			rel(3)
+			// at == 4: the request arrives while m initialises its next term
+			c.Ops = append(c.Ops, Op{K: "campaign", M: m}, Op{K: "gen", M: m, Count: 1},
+				Op{K: "clockall", D: c.Cfg.SaveMs + 1}, Op{K: "update", M: m}, Op{K: "gen", M: m, Count: 1})
 		case k < 82:
 			c.Ops = append(c.Ops, Op{K: "resign", M: m})
 		case k < 88:
